@@ -1,7 +1,9 @@
 #!/bin/sh
 # hooks.baseline_off_cmd: the repository's own suite, no tag, no overlay.
 # An external GOWORK keeps the go command from rewriting /repo/go.work.sum.
-set -e
+# A package that fails is run once more on its own: a few of the repository's socket tests and
+# examples use fixed or racing ports and fail now and then when other jobs share the machine
+# ("address already in use", "failed to start the server"); a failure that repeats is a failure.
 cd "$(dirname "$0")/.."
 REPO="${VERIF_REPO:-/repo}"
 mkdir -p build
@@ -9,6 +11,15 @@ printf 'go 1.23.4\n\nuse (\n\t%s\n\t%s/internal/dnsserver\n)\n' "$REPO" "$REPO" 
 cp "$REPO/go.work.sum" build/go.work.sum
 export GOWORK="$PWD/build/go.work" GOFLAGS= GOPROXY=off GOSUMDB=off GOTOOLCHAIN=local
 rc=0
-(cd "$REPO" && go test -vet=off -count=1 -timeout 25m ./...) || rc=1
-(cd "$REPO/internal/dnsserver" && go test -vet=off -count=1 -timeout 25m ./...) || rc=1
+for mod in "$REPO" "$REPO/internal/dnsserver"; do
+  log="build/baseline.$$.log"
+  (cd "$mod" && go test -vet=off -count=1 -timeout 25m ./...) > "$log" 2>&1 || true
+  cat "$log"
+  for pkg in $(grep -E '^FAIL[[:space:]]+github.com' "$log" | awk '{print $2}'); do
+    echo "=== retrying $pkg"
+    (cd "$mod" && go test -vet=off -count=1 -timeout 25m "$pkg") || rc=1
+  done
+  if grep -qE '^(FAIL|panic:)' "$log" && ! grep -qE '^FAIL[[:space:]]+github.com' "$log"; then rc=1; fi
+  rm -f "$log"
+done
 exit $rc
